@@ -158,6 +158,18 @@ template<int D> void run_pair(long id, std::vector<long> const& sa, std::vector<
 	std::cout << os.str() << std::flush;
 }
 
+// zero-dimensional operands: one element each
+inline void run_pair0(long id, std::vector<long> const& va, std::vector<long> const& vb) {
+	multi::array<int, 0> a(static_cast<int>(va.at(0))), b(static_cast<int>(vb.at(0)));
+	multi::array<int, 0> const& ca = a;
+	std::ostringstream os;
+	os << "{\"id\":" << id << ",\"res\":[";
+	os << "[\"array\",\"array\",\"" << six(a, b) << six(b, a) << "\"],";
+	os << "[\"const_array\",\"array\",\"" << six(ca, b) << six(b, ca) << "\"]";
+	os << "]}\n";
+	std::cout << os.str() << std::flush;
+}
+
 int main(int argc, char** argv) {
 	guard::install();
 	std::ios::sync_with_stdio(false);
@@ -182,6 +194,7 @@ int main(int argc, char** argv) {
 		rd(sa, va); rd(sb, vb);
 		guard::context() = id;
 		switch(D) {
+			case 0: run_pair0(id, va, vb); break;
 			case 1: run_pair<1>(id, sa, va, sb, vb, combos); break;
 			case 2: run_pair<2>(id, sa, va, sb, vb, combos); break;
 			case 3: run_pair<3>(id, sa, va, sb, vb, combos); break;
